@@ -872,6 +872,7 @@ func (c *ExecCtx) runLoop(st *State, node ast.Node, label string, ls *LoopSpec, 
 	}
 	rec := c.dryRun(st, iter)
 
+	evalInvMode := false
 	evalInv := func(s *State, oldS *State) []struct {
 		t   *Term
 		src string
@@ -882,7 +883,12 @@ func (c *ExecCtx) runLoop(st *State, node ast.Node, label string, ls *LoopSpec, 
 		}
 		if ls != nil {
 			for _, cl := range ls.Inv {
-				t := c.specBool(s, oldS, cl, pos, binds)
+				var t *Term
+				if evalInvMode {
+					t = c.specBoolAssume(s, oldS, cl, pos, binds)
+				} else {
+					t = c.specBool(s, oldS, cl, pos, binds)
+				}
 				out = append(out, struct {
 					t   *Term
 					src string
@@ -903,9 +909,11 @@ func (c *ExecCtx) runLoop(st *State, node ast.Node, label string, ls *LoopSpec, 
 			h.assumeT(t)
 		}
 	}
+	evalInvMode = true
 	for _, iv := range evalInv(h, c.oldState) {
 		h.assumeT(iv.t)
 	}
+	evalInvMode = false
 	var decBefore *Term
 	if ls != nil && ls.Decreases != nil {
 		decBefore = u.define(h, "variant", c.specInt(h, c.oldState, *ls.Decreases, pos, binds))
